@@ -65,6 +65,11 @@ func edifactHandleEOD(context *EncoderContext, buffer []byte) error {
 
 		available := context.GetSymbolInfo().GetDataCapacity() - context.GetCodewordCount()
 		remaining := context.GetRemainingCharacters()
+		for _, c := range context.msg[context.pos : context.pos+remaining] {
+			if HighLevelEncoder_isExtendedASCII(c) {
+				remaining++ // upper shift: two codewords in ASCII encodation
+			}
+		}
 		// The following two lines are a hack inspired by the 'fix' from https://sourceforge.net/p/barcode4j/svn/221/
 		if remaining > available {
 			e := context.UpdateSymbolInfoByLength(context.GetCodewordCount() + 1)
